@@ -64,7 +64,12 @@ SPEC = Spec(
          "gated and race harnesses also goes through the spin barrier. provlog: min(8, GOMAXPROCS) goroutines log continuously "
          "through the logger NewCollector hands to providers/converters (collectorCore) from before Run through start-up and 30-69 "
          "reloads (watch notification / SIGHUP alternating, each must return to Running), then Shutdown(); watchdog 4 s per step -> "
-         "C20/runloop/run-wedged-while-provider-logs; end state Closed / provider shut down once / trace monitor. A Run goroutine "
+         "C20/runloop/run-wedged-while-provider-logs; end state Closed / provider shut down once / trace monitor. watchburst: ungated, every hook a yield point; goroutines of the test provider call the REAL resolver's "
+         "watcher func in 1-3 bursts of 1-3 notifications (change / watch error; patterns c, cc, cE, E, ccE, cEc, Ec, ccc) placed during "
+         "start-up, while a reload is in progress and while Running; verdict on the SET sent: any error => Run returns within 4 s, "
+         "Closed, provider once (C20/runloop/watch-error-notification-lost); only changes => all consumed, Running again, then "
+         "Shutdown() returns. In the gated/exhaustive harnesses watch notifications are also sent by provider goroutines, up to 3 "
+         "outstanding (corpus cases 4, 5). A Run goroutine "
          "that stops making progress in a gated history while a FatalError report has not come back is "
          "C20/runloop/run-wedged-while-fatal-error-report-pending.",
     trusted_base=[
@@ -93,14 +98,17 @@ SPEC = Spec(
     assumptions=[
         "fairness for the liveness statements (C20_stop_returns, C20_shutdown_honoured): the Run goroutine and a goroutine inside "
         "Shutdown() are eventually scheduled; the history of external events is finite",
-        "a config provider notifies at most once per Retrieve and never after its Shutdown (confmap.WatcherFunc contract); the model "
-        "itself allows any number of pending notifications",
+        "provider notifications go through the REAL confmap.Resolver (the test provider's goroutines call the WatcherFunc handed to "
+        "Retrieve): up to 3 outstanding in the gated/exhaustive harnesses, bursts of 1-3 in the watchburst harness; the model keeps every "
+        "outstanding notification (lossless, C20_watch_error_never_lost). A provider never notifies once the run is committed to the "
+        "provider's Shutdown; a sender still blocked when Shutdown closes the channel panics in the provider's goroutine (counted, "
+        "recovered by the harness) - excluded from the statement by the provider contract",
         "Run is called at most once per Collector (documented)",
         "channels are idealised as pending counters: a `post hup/term` is a signal that ENTERED signalsChannel (capacity 3; a signal "
         "arriving while three are pending is dropped by os/signal before it reaches the collector — OS signal delivery, outside the "
-        "statement's reach; the harness offers such signals and checks nothing happens); watcher channel capacity 1: a further "
-        "notification blocks in the provider's goroutine (pending in the model) and panics there if the provider is shut down "
-        "meanwhile — excluded by the provider contract; asyncErrorChannel unbuffered: direct senders and component reports are "
+        "statement's reach; the harness offers such signals and checks nothing happens); watcher channel capacity 1 with a BLOCKING send: a further "
+        "notification waits in the provider's goroutine (outstanding in the model, exercised for real) and panics there if the "
+        "provider is shut down meanwhile — excluded by the provider contract; asyncErrorChannel unbuffered: direct senders and component reports are "
         "pending senders (repaired host: the report's hand-over goroutine; it never holds up the component or the status reporter)",
         "components and providers themselves terminate: a Start/Shutdown/Retrieve that blocks forever is outside model and harness",
         "interleavings below gate granularity (and two Shutdown() callers between guard read and close on the REAL code) are "
